@@ -88,7 +88,11 @@ def build2(m):
                            ('implies(is_none(%s) or some(%s) == 0, is_none(arg_max_line_length))' % (L, L), 'C10'),
                            ('implies(not is_none(%s) and some(%s) >= 1, not is_none(arg_max_line_length) and some(arg_max_line_length) >= 1)' % (L, L), 'C10'),
                            ('implies(not is_none(%s) and some(%s) >= 1 and not self.normalize_whitespace and some(%s) - token.prepend >= 1, '
-                            'some(arg_max_line_length) == some(%s) - token.prepend)' % (L, L, L, L), 'C10')],
+                            'some(arg_max_line_length) == some(%s) - token.prepend)' % (L, L, L, L), 'C10'),
+                           # with normalised white space the prefix written is leader + one blank: that width, not the
+                           # source's, comes off the budget (otherwise a second reflow fills the lines differently)
+                           ('implies(not is_none(%s) and some(%s) >= 1 and self.normalize_whitespace and some(%s) - (len(token.leader) + 1) >= 1, '
+                            'some(arg_max_line_length) == some(%s) - (len(token.leader) + 1))' % (L, L, L, L), 'C10')],
                        MOD + ':MarkdownRenderer.prefix_lines#lines': [
                            # both prefixes have exactly the width that was taken off the budget
                            ('implies(not self.normalize_whitespace, len(arg_first_line_prefix) == token.prepend and '
